@@ -4,6 +4,7 @@ from __future__ import annotations
 import ast
 
 from sa.engine.absinterp import Evaluator  # noqa: F401  (kept for the partition evaluation below)
+from sa.engine.cfg import normally_dominates
 from sa.engine.context import Ctx
 from sa.engine.loader import AnalysisError, dotted, norm, short, walk_own, is_noise
 from sa.engine.callgraph import calls_in, resolve_call
@@ -36,7 +37,7 @@ NOT_DECIDED = [
     "ragged rows and merged cells (grid geometry is value level)",
     "order of tables in the output", "index arithmetic of the trimming code (which column index is recorded as the last data column)"]
 TRUSTED = ["the tree grammars in sa/schemas", "ElementTree axis semantics", "openpyxl iter_rows(values_only=True) yields every cell of the used range"]
-FLOORS = {"C13-ROWS": 4, "C13-ODS": 2, "C13-WALK": 60, "C13-KEY": 5, "C13-TRIM": 8, "C13-SPINE": 2, "C13-DIM": 5, "C13-VIEW": 5}
+FLOORS = {"C13-GRID": 4, "C13-ROWS": 4, "C13-ODS": 2, "C13-WALK": 60, "C13-KEY": 5, "C13-TRIM": 8, "C13-SPINE": 2, "C13-DIM": 5, "C13-VIEW": 5}
 
 W = s_docx.NS["w"]
 TABLE_WALKS = [
@@ -389,4 +390,63 @@ def rule_ods(ctx: Ctx) -> RuleReport:
     return rep
 
 
-RULES = [rule_walk, rule_key, rule_trim, rule_spine, rule_dim, rule_view, rule_rows, rule_ods]
+def rule_grid(ctx: Ctx) -> RuleReport:
+    """Cell (i, j) of the returned grid is source cell (i, j): the positions a source format leaves implicit must be made explicit.
+    DOCX (ECMA-376 17.4): w:gridSpan on a cell covers val grid columns, w:gridBefore / w:gridAfter on a row skip grid columns. XLSX: the
+    optional <dimension> element is a hint; openpyxl's read-only worksheet clips iter_rows() to it unless reset_dimensions() was called."""
+    rep = RuleReport("C13-GRID", "implicit grid positions are made explicit: DOCX rows are padded for gridSpan / gridBefore / gridAfter, XLSX rows are read after reset_dimensions()")
+    DOCX_ = X + "ms_modern/docx_extractor.py"
+    dm = ctx.p.module(DOCX_)
+    tf = ctx.p.func(DOCX_, "_extract_tables_from_context")
+    rep.unit(tf.key)
+    row_loops = [l for l in ast.walk(tf.node) if isinstance(l, ast.For) and any(isinstance(c, ast.Call) and isinstance(c.func, ast.Attribute) and c.func.attr == "append" and isinstance(c.func.value, ast.Name) and c.func.value.id == "table_data" for st in l.body for c in ast.walk(st))]
+    if not row_loops:
+        raise AnalysisError("C13-GRID: the row loop of _extract_tables_from_context was not found")
+    rl = row_loops[0]
+
+    def folded_names(node):
+        out = set()
+        for x in ast.walk(node):
+            if isinstance(x, ast.Name):
+                v = ctx.folder.fold(dm, x)
+                if isinstance(v, str) and "}" in v:
+                    out.add(v.rsplit("}", 1)[1])
+        return out
+
+    used = folded_names(rl)
+    # padding statements: row.extend([""] * n) / row = [""] * n / row += [""] * n inside the row loop
+    pads = [x for x in ast.walk(rl) if isinstance(x, ast.BinOp) and isinstance(x.op, ast.Mult) and any(isinstance(y, ast.List) and len(y.elts) == 1 and isinstance(y.elts[0], ast.Constant) and y.elts[0].value == "" for y in (x.left, x.right))]
+    for need, why in (("gridSpan", "a horizontally merged cell covers several grid columns: the cells to its right move left"), ("gridBefore", "grid columns skipped before the first cell of a row: the row starts in column 0 instead"), ("gridAfter", "grid columns skipped after the last cell: the row is shorter than the grid")):
+        if need in used and pads:
+            rep.ok({"docx_table": need, "padded": True})
+        else:
+            rep.fail(Finding("C13-GRID", DOCX_, tf.qual, f"w:{need} not honoured", f"the table reader never looks at w:{need} ({why}); cell (i, j) of the returned grid is then not source cell (i, j)", line=rl.lineno))
+    # XLSX
+    XLSX_ = X + "ms_modern/xlsx_extractor.py"
+    rs = ctx.p.func(XLSX_, "_read_sheet_data")
+    rep.unit(rs.key)
+    cfg = ctx.cfg(rs)
+    its = [c for c in calls_in(rs) if isinstance(c.func, ast.Attribute) and c.func.attr in ("iter_rows", "iter_cols")]
+    if not its:
+        raise AnalysisError("C13-GRID: _read_sheet_data no longer reads the rows with iter_rows()")
+    resets = [c for c in calls_in(rs) if isinstance(c.func, ast.Attribute) and c.func.attr == "reset_dimensions"]
+    for it in its:
+        ok = False
+        for r in resets:
+            if norm(r.func.value) != norm(it.func.value):
+                continue
+            # the reset (or the false branch of `if hasattr(ws, "reset_dimensions")`: a sheet kind without stored dimensions) precedes the read
+            through = list(cfg.evaluators(r))
+            for nd in cfg.nodes:
+                if nd.kind == "test" and "hasattr" in norm(nd.ast) and "reset_dimensions" in norm(nd.ast):
+                    through += [s2 for s2 in cfg.succ[nd.id] if cfg.elabel.get((nd.id, s2)) == "false"]
+            if all(normally_dominates(cfg, through, b) for b in cfg.evaluators(it)):
+                ok = True
+        if ok:
+            rep.ok({"xlsx_rows": short(it, 40), "after": "reset_dimensions()"})
+        else:
+            rep.fail(Finding("C13-GRID", XLSX_, rs.qual, f"{anorm(it.func, rs.node)} without reset_dimensions()", f"`{short(it, 40)}` on a read-only worksheet yields the rectangle of the file's <dimension> element; when it is stale (A1 for a 3x3 sheet) the cells outside it are lost", line=it.lineno))
+    return rep
+
+
+RULES = [rule_walk, rule_key, rule_trim, rule_spine, rule_dim, rule_view, rule_rows, rule_ods, rule_grid]
